@@ -311,6 +311,9 @@ impl Model {
                 viol!(self, at, "C10", "lifecycle-read", "observer {} is {:?} but returned {:?}", oid, self.obs[oid].state, res);
             }
             (Err(ObsErr::ObservingInvalid), Ok(_)) => {
+                if matches!(self.nodes[hid].rk, RK::BMemo { .. }) {
+                    viol!(self, at, "C20", "local-memo-node-outlived-its-scope", "node {} was made by a constructor memoised inside a bind closure, the bind re-ran, yet its observer still returns {:?}", hid, res);
+                }
                 viol!(self, at, "C03", "invalid-node-readable", "observer {} on invalid node {} returned {:?}", oid, hid, res);
             }
             (Ok(_), Err(ObsErr::ObservingInvalid)) => {
